@@ -8,7 +8,7 @@ use serde_json::json;
 
 use crate::case::{ops_sample, Case, CaseError, Env, Failure, Tier};
 use crate::damage::{
-    aimed_damage, apply, craft_batch, craft_entry, craft_entry_frames, craft_frame, live_frames, next_wal_name,
+    apply, craft_batch, craft_entry, craft_entry_frames, craft_frame, live_frames, next_wal_name,
     random_inplace_damage, to_hex, written_extent, CDamage, Extras,
 };
 use crate::driver::open_log;
@@ -152,7 +152,7 @@ fn any_damage(rng: &mut u64, image: &Image, frames: &[crate::iotrace::FrameInfo]
                 return None;
             }
             let frame = &live[(splitmix(rng) % live.len() as u64) as usize];
-            Some(aimed_damage(frame, image, splitmix(rng)).0)
+            Some(crate::damage::aimed_damage_in_context(frame, &live, image, splitmix(rng)).0)
         }
         6..=7 => {
             let name = pick_file(rng)?;
